@@ -62,6 +62,7 @@ pub fn run(ctx: &RunCtx) -> i32 {
         "C09" => c09(ctx),
         "C13" => c13(ctx),
         "C15" => c15(ctx),
+        "C17" => c17(ctx),
         "C16" => c16(ctx),
         "C16bytes" => c16_bytes_worker(ctx),
         "C19" => c19(ctx),
@@ -1616,4 +1617,53 @@ fn c16_bytes_worker(ctx: &RunCtx) -> i32 {
     // written under a different name so that the parent can merge it
     let code = finish_named(&ctx2, rep, "C16bytes");
     code
+}
+
+// ------------------------------------------------------------------------------------------
+// C17: generated service glue
+
+fn c17(ctx: &RunCtx) -> i32 {
+    let n = ctx.n(48, 640) as usize;
+    let shards = if ctx.thorough() { 8 } else { 2 };
+    let res = crate::gen::run_positive(&ctx.verif_dir, ctx.seed, n, shards);
+    let mut agg = Agg::new(ctx.prop);
+    agg.max_samples = 6;
+    if let Some(i) = res.inconclusive {
+        agg.inconclusive.push(i);
+    }
+    let compiled = res.outcomes.iter().all(|o| o.viols.iter().all(|v| v.rule != "accepted-shape-does-not-compile"));
+    for o in res.outcomes {
+        agg.add(o, &ctx.known);
+    }
+    if compiled {
+        for o in crate::gen::run_negatives(&ctx.verif_dir, &[]) {
+            agg.add(o, &ctx.known);
+        }
+    }
+    let mut extra = BTreeMap::new();
+    extra.insert("programs".into(), json!(agg.counters.get("services").copied().unwrap_or(0)));
+    extra.insert("generated_sources".into(), json!(format!("{}/gencrate/src/bin", ctx.verif_dir)));
+    let rep = Report {
+        level: "exploration",
+        rule: "S-gen: a seeded generator writes service definitions (1-12 methods, arity 0-6, equal and differing argument types, default / unit / tuple / generic returns, raw identifiers, underscores and mixed case, names of std methods, attributes and cfg on methods, every derive option), implementors that record (service, method, Debug of the arguments, context deadline and trace id) and return a value derived from the invocation number, and drivers that call every method through the generated client over the in-memory transport and through a Stub-based client wrapped in a spy recording RequestName::name(); the real #[tarpc::service] macro expands them, rustc compiles them against the current tree, and the drivers' comparisons are the oracle. Negative definitions (names colliding with generated items) must each fail to compile. Distinct = distinct feature/shape signatures of the generated services".into(),
+        agg,
+        extra,
+        assumptions: vec!["a generated positive program that stops compiling is reported as a violation (the macro no longer accepts a supported shape)".into()],
+        required_cells: vec![
+            "C17.raw-method-ident".into(),
+            "C17.raw-service-ident".into(),
+            "C17.same-typed-args".into(),
+            "C17.same-signature-siblings".into(),
+            "C17.cfg-disabled-method".into(),
+            "C17.ret-default".into(),
+            "C17.arity0".into(),
+            "C17.arg-named-like-generated-local".into(),
+            "C17.context-typed-arg".into(),
+            "C17.negative.method-new".into(),
+            "C17.negative.method-serve".into(),
+            "C17.negative.camel-collision-double-underscore".into(),
+        ],
+        exhaustive: None,
+    };
+    finish(ctx, rep)
 }
